@@ -906,6 +906,27 @@ theorem parse_step_plain (ev : Str → EvalResult) {w : World} {src : Comps} (o 
   have hto := C13api.writeTo_ok (ev := ev) (w := { w with c := c' }) hw
   exact ⟨c', by simp only [apiStep, hfile, hread, hto]⟩
 
+/-- with the default treatment (includes merged, no scope, no reordering) `postRead` of a comment-free document's
+    meaning is that meaning: `_merge_includes`, `_clean` and `_eval_expressions` change nothing -/
+theorem postRead_plain (ev : Str → EvalResult) {es : SrcEntries} {gaps : List Str} {tail : Str} (hdoc : PlainDoc es gaps tail)
+    (o : ReadOpts) (hi : o.includes = true) (hs : o.scope = []) (ho : o.order = false) :
+    postRead ev o { data := denSrcEs es [] } = .ok (some { data := denSrcEs es [] }) := by
+  have hn : NodupKeysV (.dict (denSrcEs es [])) := C02.Main.den_nodup es
+  have hcl : ({ data := denSrcEs es [] } : SD).clean = { data := denSrcEs es [] } :=
+    C07.clean_id _ hn (C02.Main.den_noPh hdoc.wf)
+  have hsm : selfMerge { data := denSrcEs es [] } = { data := denSrcEs es [] } := by
+    rw [selfMerge_eq _ hn, hcl, hcl]
+  unfold postRead
+  simp [hi, hs, ho, hsm, C01.evalExpressions_noexpr ev { data := denSrcEs es [] } rfl, Except.bind]
+
+/-- … so the probe with such options returns exactly the documented meaning of the document -/
+theorem plainProbe_meaning (ev : Str → EvalResult) {p : Comps} {es : SrcEntries} {gaps : List Str} {tail : Str}
+    (hdoc : PlainDoc es gaps tail) (o : ReadOpts) (hi : o.includes = true) (hs : o.scope = []) (ho : o.order = false)
+    (hxj : (isXmlPath p || isJsonPath p) = false) :
+    plainProbe ev p o es = .data { data := denSrcEs es [] } := by
+  simp only [plainProbe, hxj, postRead_plain ev hdoc o hi hs ho, probeOut]
+  rfl
+
 /-! ## property theorems -/
 
 /-- **C08 on histories, writes included.**  Take any world whose counter holds a value that can occur, any history of
@@ -1106,6 +1127,20 @@ example (d : Entries) :
       some (.native (fmtPlain .native (normEs d))) :=
   (C08_write_bytes_history evalInt exOps exWorld (.plain d) exA ['w'] false (by decide)
     (writeBytes_plain exA false d (fl := .native) (by decide +kernel))).1
+
+/-! ### `C08_parse_bytes_history` on the example -/
+
+/-- after the history, `parse plain` (overwrite mode) leaves in `w/parsed.plain` the formatter's text of the document's
+    meaning `C02.exData` (some text `t`: the formatter does not give up) -/
+theorem ex_parse : ∃ t, writeBytes (parseTarget exA [] none) false (.sd { data := C02.exData }) = some t ∧
+    (apiRun evalInt exWorld (exOps ++ [.parse exA {} ['w'] none])).1.fs.get ["w".toList, "parsed.plain".toList] =
+      some (.native t) := by
+  obtain ⟨t, ht⟩ := Option.isSome_iff_exists.mp
+    (by decide +kernel : (writeBytes (parseTarget exA [] none) false (.sd { data := C02.exData })).isSome = true)
+  have hr : postRead evalInt {} { data := denSrcEs C02.exSrc [] } = .ok (some { data := C02.exData }) := by
+    rw [postRead_plain evalInt exPlainDoc {} rfl rfl rfl, C02.exSrc_den]
+  exact ⟨t, ht, (C08_parse_bytes_history evalInt exOps exWorld exA {} ['w'] none exPlainDoc exA_file C08.ex_valid
+    exOps_frame_A (by decide) (by decide) hr ht).1⟩
 
 /-! ### `order=True` is excluded for a reason: the statement without `o.order = false` is false -/
 
